@@ -63,14 +63,12 @@ impl parsing::Span<'_> {
         let Some(subsecond) = self.subsecond else {
             return Ok(0);
         };
+        // digits beyond nanosecond resolution are dropped (the parser only accepts ASCII digits)
+        let subsecond = subsecond.get(..9).unwrap_or(subsecond);
         let subsecond_val: i64 = subsecond.parse()?;
         let subsecond_len = u32::try_from(subsecond.len())?;
 
-        if subsecond_len <= 9 {
-            Ok(subsecond_val * 10_i64.pow(9 - subsecond_len))
-        } else {
-            Ok(subsecond_val / 10_i64.pow(subsecond_len - 9))
-        }
+        Ok(subsecond_val * 10_i64.pow(9 - subsecond_len))
     }
 
     fn build_duration(
